@@ -453,6 +453,54 @@ func C04(c *hx.Ctx) {
 	})
 	c.Logf("structural edits done: %d evaluations", c.Evals)
 	c.Traces += c.Evals // TLC-classified edits replayed on the real reader
+	// LZMA2 chunk headers (one layer below the container, inside the block data and under no header
+	// CRC): the size fields of every compressed chunk made larger or smaller. The chunk's compressed
+	// size is redundant (the range decoder knows where it ends), the uncompressed size too for the
+	// last chunk of a block with a size field - an inconsistent value must be reported.
+	for _, b := range bases {
+		xr := ref.DecodeXZ(b.Data, ref.XZOpts{})
+		if xr.Err != nil || len(xr.Streams) != 1 {
+			continue
+		}
+		for bi, blk := range xr.Streams[0].Blocks {
+			for ci, ch := range blk.L2.Chunks {
+				if ch.Ctrl < 0x80 {
+					continue
+				}
+				at := blk.DataOff + ch.Off
+				for _, ed := range []struct {
+					name  string
+					field int // offset of the 16-bit big-endian field after the control byte
+					delta int
+				}{{"l2csizePlus1", 3, 1}, {"l2csizePlus2", 3, 2}, {"l2csizePlus256", 3, 256}, {"l2csizeMinus1", 3, -1}, {"l2usizePlus1", 1, 1}, {"l2usizeMinus1", 1, -1}} {
+					v := int(b.Data[at+ed.field])<<8 | int(b.Data[at+ed.field+1])
+					v += ed.delta
+					if v < 0 || v > 0xffff {
+						continue
+					}
+					file := append([]byte{}, b.Data...)
+					file[at+ed.field], file[at+ed.field+1] = byte(v>>8), byte(v)
+					for _, bufSize := range []int{777, 1} {
+						c.Count(1, 1)
+						out, err, p := readXZ(file, 4096, false, bufSize)
+						sig := map[string]string{"kind": "", "edit": ed.name, "check": fmt.Sprint(b.Check), "buf": fmt.Sprint(bufSize)}
+						replay := map[string]any{"base": b.Name, "edit": ed.name, "block": bi + 1, "chunk": ci, "chunkOffset": at, "readBuffer": bufSize, "file": hexHead(file, 4096)}
+						switch {
+						case p != nil:
+							sig["kind"] = "panic"
+							c.Violation(sig, fmt.Sprintf("edit %s on %s: panic %v", ed.name, b.Name, p), replay)
+						case err == nil && !bytes.Equal(out, b.Plain):
+							sig["kind"] = "different-content-accepted"
+							c.Violation(sig, fmt.Sprintf("edit %s on %s: clean end with different content", ed.name, b.Name), replay)
+						case err == nil:
+							sig["kind"] = "inconsistency-accepted"
+							c.Violation(sig, fmt.Sprintf("edit %s (block %d, chunk %d) on %s: the chunk header states a size the chunk does not have, but the reader reports a clean end (%d bytes)", ed.name, bi+1, ci, b.Name, len(out)), replay)
+						}
+					}
+				}
+			}
+		}
+	}
 	// byte-level modifications
 	type mod struct {
 		base int
